@@ -27,7 +27,7 @@ theorem objDerefTy_mono (Γ : Env) (b : Bool) (p : String) {t t' : Ty} (h : Loos
     cases d with
     | false => simp [objDerefTy] at he
     | true =>
-      have hd' : d' = true := by simpa using hc
+      have hd' : d' = true := hc rfl
       subst hd'
       cases hel with
       | any =>
@@ -47,7 +47,7 @@ theorem objDerefTy_mono (Γ : Env) (b : Bool) (p : String) {t t' : Ty} (h : Loos
         obtain ⟨X, hX⟩ := this
         rw [hX]
         simp only [objDerefTy]
-        exact .arr (.any _) (.inl rfl)
+        exact .arr (.any _) (fun _ => rfl)
       | null => simp [objDerefTy] at he
       | number => simp [objDerefTy] at he
       | bool => simp [objDerefTy] at he
@@ -59,8 +59,8 @@ theorem objDerefTy_mono (Γ : Env) (b : Bool) (p : String) {t t' : Ty} (h : Loos
         · cases hm with
           | none => simp [h1] at he
           | opened => simp [h1] at he
-          | some hmt => simp only [h1, h2]; exact ⟨by simp, .arr hmt (.inl rfl)⟩
-        · simp only [h1, h2]; exact ⟨by simp, .arr hpt (.inl rfl)⟩
+          | some hmt => simp only [h1, h2]; exact ⟨by simp, .arr hmt (fun _ => rfl)⟩
+        · simp only [h1, h2]; exact ⟨by simp, .arr hpt (fun _ => rfl)⟩
   | obj hp hm =>
     simp only [objDerefTy] at he ⊢
     rcases hp.lookup (k := p) with ⟨h1, h2⟩ | ⟨pt, pt', h1, h2, hpt⟩
@@ -150,12 +150,12 @@ theorem arrDerefTy_mono {t t' : Ty} (h : LooserD t t') (he : (arrDerefTy t).2 = 
   | any =>
     obtain ⟨X, hX⟩ := arrDerefTy_shape he
     rw [hX]
-    exact ⟨rfl, .arr (.any _) (.inl rfl)⟩
+    exact ⟨rfl, .arr (.any _) (fun _ => rfl)⟩
   | null => simp [arrDerefTy] at he
   | number => simp [arrDerefTy] at he
   | bool => simp [arrDerefTy] at he
   | string => simp [arrDerefTy] at he
-  | arr hel _ => exact ⟨rfl, .arr hel (.inl rfl)⟩
+  | arr hel _ => exact ⟨rfl, .arr hel (fun _ => rfl)⟩
   | @obj ps ps' m m' hp hm =>
     cases hm with
     | none =>
@@ -167,19 +167,19 @@ theorem arrDerefTy_mono {t t' : Ty} (h : LooserD t t') (he : (arrDerefTy t).2 = 
     | opened =>
       obtain ⟨X, hX⟩ := arrDerefTy_shape he
       rw [hX]
-      exact ⟨rfl, .arr (.any _) (.inl rfl)⟩
+      exact ⟨rfl, .arr (.any _) (fun _ => rfl)⟩
     | some hmt =>
       cases hmt with
       | any =>
         obtain ⟨X, hX⟩ := arrDerefTy_shape he
         rw [hX]
-        exact ⟨rfl, .arr (.any _) (.inl rfl)⟩
+        exact ⟨rfl, .arr (.any _) (fun _ => rfl)⟩
       | null => simp [arrDerefTy] at he
       | number => simp [arrDerefTy] at he
       | bool => simp [arrDerefTy] at he
       | string => simp [arrDerefTy] at he
       | arr _ _ => simp [arrDerefTy] at he
-      | obj hp2 hm2 => exact ⟨rfl, .arr (.obj hp2 hm2) (.inl rfl)⟩
+      | obj hp2 hm2 => exact ⟨rfl, .arr (.obj hp2 hm2) (fun _ => rfl)⟩
 
 theorem arrDerefTy_wf {t : Ty} (h : wf t = true) : wf (arrDerefTy t).1 = true := by
   cases t with
